@@ -809,6 +809,58 @@ def run(index, rep, tier):
         for f in sm.fns:
             pass
 
+    # ---- R20.8
+    with rep.section("R20.8"):
+        rep.rule("R20.8", "error handlers read only what the error carries: every attribute read from a caught repository exception (`except E as e: ... e.X`) is assigned by E or one of its bases - otherwise the handler itself dies with AttributeError instead of the defined parse error")
+        BUILTIN_EXC_ATTRS = {"args", "with_traceback", "add_note", "__context__", "__cause__", "__traceback__", "__class__", "__dict__", "__str__", "__notes__", "__suppress_context__", "errno", "strerror", "filename"}
+        def carried(ci, seen=None):
+            seen = seen if seen is not None else set()
+            out = set(ci.class_attrs) | set(ci.methods) | set(ci.properties)
+            for m in ci.methods.values():
+                for w in writes_in(m.node):
+                    if w.base is not None and norm(w.base) == "self" and w.kind in ("store", "augstore"):
+                        out.add(w.attr)
+            for b in index.mro(ci)[1:]:
+                if b.qualname not in seen:
+                    seen.add(b.qualname)
+                    out |= carried(b, seen)
+            return out
+        # attributes attached to exception objects from outside (e.exception_tree_offset = ...)
+        attached = set()
+        for f in index.functions.values():
+            for n in walk_no_nested(f.node):
+                if isinstance(n, ast.ExceptHandler) and n.name:
+                    for a in ast.walk(n):
+                        if isinstance(a, ast.Assign) and isinstance(a.targets[0], ast.Attribute) and norm(a.targets[0].value) == n.name:
+                            attached.add(a.targets[0].attr)
+        nread = 0
+        for f in index.functions.values():
+            if not (f.module.name.startswith("dendropy.dataio") or f.module.name in ("dendropy.utility.error", "dendropy.datamodel.basemodel")):
+                continue
+            for h in walk_no_nested(f.node):
+                if not (isinstance(h, ast.ExceptHandler) and h.name and h.type is not None):
+                    continue
+                types = h.type.elts if isinstance(h.type, ast.Tuple) else [h.type]
+                cis = []
+                for t in types:
+                    tgt = index.resolve_expr(f.module, t)
+                    if tgt is None and isinstance(t, ast.Attribute):
+                        # NexusReader.SomeError / self.SomeError: an inner exception class
+                        cands = [c for c in index.classes.values() if c.name == t.attr]
+                        tgt = cands[0] if len(cands) == 1 else None
+                    if tgt is not None and hasattr(tgt, "methods"):
+                        cis.append(tgt)
+                if not cis or len(cis) != len(types):
+                    continue        # a built-in or unresolved exception type: nothing to compare with
+                have = set.intersection(*[carried(c) for c in cis]) | BUILTIN_EXC_ATTRS | attached
+                for a in ast.walk(h):
+                    if isinstance(a, ast.Attribute) and isinstance(a.ctx, ast.Load) and isinstance(a.value, ast.Name) and a.value.id == h.name:
+                        nread += 1
+                        rep.check(a.attr in have, "R20.8", f.qualname, "handler reads %s.%s, which %s does not carry" % (h.name, a.attr, "/".join(c.name for c in cis)), fn_where(f, a),
+                                  "%s: `%s.%s` is set by %s" % (f.name, h.name, a.attr, "/".join(c.name for c in cis)),
+                                  "%s catches %s and reads `%s.%s`, but no class in the hierarchy of %s assigns `%s`: on the malformed input that reaches this handler the reader dies with AttributeError from inside the library instead of raising its defined parse error" % (f.qualname, "/".join(c.name for c in cis), h.name, a.attr, "/".join(c.name for c in cis), a.attr))
+        rep.floor("R20.8", "attribute reads on caught repository exceptions in the readers", 3, nread)
+
     # ---- R20.7
     with rep.section("R20.7"):
         rep.rule("R20.7", "NCHAR bounds every row: inside each NEXUS cell reader every comparison with the declared NCHAR (the loop condition and each too-many-characters guard) measures the same quantity")
